@@ -378,3 +378,11 @@ Definition a_classify (hist : list (aop * aout)) (o : aop) (e seen : aout) : N :
   else if pkey then 5
   else 1.
 Definition a_mon := mon_run a_expected aout_eqb a_classify.
+
+(** The monitor the check evaluates: a divergence is attributed to a finding class only if
+    the trace up to and including the diverging call actually leaves the guard; inside the
+    guard every divergence is class 1 (it would contradict the guarded theorem). *)
+Definition a_mon_checked (tr : list (aop * aout)) : N :=
+  let m := a_mon tr in
+  if N.eqb m 0 then 0
+  else if a_guards (firstn (S (N.to_nat (m / 100))) tr) then (m / 100) * 100 + 1 else m.
